@@ -249,60 +249,122 @@ def engine_rule(ctx, r):
               "line matches or not depending on whether it is searched alone or inside its buffer", fn=f, construct="to_regex")
 
 
-def anchor_tests(facts, fn, eb):
-    """Boolean switches of `fn` that decide "the pattern's anchors rule out the terminator promise", normalised so that the
-    first edge is the withholding one. The test is either LookSet::contains_anchor_haystack() itself or a bool method of
-    ConfiguredHIR that answers a constant under haystack anchors (a helper shared by line_terminator / non_matching_bytes).
-    Returns (switches, the expressions in which the look set is consulted)."""
-    HAY = "LookSet::contains_anchor_haystack"
-    out, exprs = [], []
-    for bb, te, fe, e in cond_switches(fn, lambda e: e.k == "call" and e[1].endswith(HAY), eb):
-        out.append((bb, te, fe, e))
-        exprs.append(e)
-    for bb, te, fe, e in cond_switches(fn, lambda e: e.k == "call" and e[1].startswith(R + "::config::ConfiguredHIR::") and e[1] in facts.fns, eb):
-        g = facts.fns[e[1]]
-        ebg = ExprBuilder(g)
-        sw = cond_switches(g, lambda e2: e2.k == "call" and e2[1].endswith(HAY), ebg)
-        if not sw or g.local_ty(0) != "bool":
-            continue
-        s1 = Sccp(g).run([(sw[0][1][1], {})])
-        vals = {x for v in s1.ret_values.values() for x in value_set(v)}
-        if vals == {I(0)}:
-            out.append((bb, fe, te, e))
-        elif vals == {I(1)}:
-            out.append((bb, te, fe, e))
-        else:
-            continue
-        exprs += [x[3] for x in sw]
-    return out, exprs
+def anchors_tables(ctx, r):
+    """The terminator promise of a configured expression, as value tables (seeded propagation through the accessor, the
+    ConfiguredHIR helpers it calls and the closures of Option combinators; the look-set predicates, config.crlf and
+    config.line_terminator are the row's inputs). How the functions spell the decision — if/else, a shared helper,
+    `Option::filter` — does not matter.
 
-
-def multiline_anchor_rule(ctx, r):
-    """The searcher drops from the multi-line strategy to the line strategies when its terminator is among the matcher's
-    non-matching bytes. With no terminator configured on the regex (multi-line search) the line anchors mean `\\n`; cutting
-    the input at another byte gives `^` a new place to match wherever a buffer happens to begin, so the answer depends on the
-    strategy and on read sizes. Necessary: with line anchors and no configured terminator, no byte other than `\\n` stays
-    advertised. (Shared by C02.GATE and C11.GATE.)"""
+      line_terminator():      None ⇔ no terminator configured ∨ haystack anchors ∨ (crlf ? LF anchors : CRLF anchors)
+      non_matching_bytes():   terminator configured ∧ the promise is withheld ⇒ its bytes are removed from the set;
+                              no terminator configured ∧ line anchors ⇒ every byte but \\n is removed
+    """
+    import itertools as _it
+    from ..flow import combinator_model
     facts = ctx.facts
+    CFG = R + "::config::Config"
+    h = facts.fn(R + "::config::ConfiguredHIR::line_terminator")
     nb = facts.fn(R + "::config::ConfiguredHIR::non_matching_bytes")
-    ebn = ExprBuilder(nb)
-    line_sw = cond_switches(nb, lambda e: e.k == "call" and e[1].split("::")[-1] in ("contains_anchor_line", "contains_anchor") and
-                            any(x.k == "call" and x[1].endswith("Properties::look_set") for x in walk(e)), ebn)
-    none_sw = cond_switches(nb, lambda e: e.k == "call" and e[1].endswith("Option::is_none") and
-                            any(x.k == "field" and x[3] == "line_terminator" for x in walk(e)), ebn)
-    rem = [c for c in nb.calls() if c.path.endswith("ByteSet::remove") and
-           not mentions_call(ebn.operand(c.args[1]), "grep_matcher::LineTerminator::as_bytes", "grep_matcher::LineTerminator::as_byte")]
-    # the removal loop runs over bytes and spares only \n
-    spare = cond_switches(nb, lambda e: e.k == "bin" and e[1] in ("Ne", "Eq") and any(y.k == "const" and y[1] == 10 for y in (e[2], e[3])), ebn)
-    ok_ = bool(line_sw and none_sw and rem and spare) and \
-        not guarded(nb, [c.bb for c in rem], line_sw, True) and not guarded(nb, [c.bb for c in rem], none_sw, True)
-    if ok_:
-        r.ok("anchors|multiline", "no terminator configured ∧ line anchors ⇒ only \\n may stay in non_matching_bytes()", fn=nb)
+
+    def helpers(path):
+        return path.startswith(R + "::config::ConfiguredHIR::") and path not in (h.path, nb.path)
+
+    def models(hay, lf, ca, crlf, term):
+        def inner(call, argv):
+            p = call.path
+            if p.endswith("LookSet::contains_anchor_haystack"):
+                return I(hay)
+            if p.endswith("LookSet::contains_anchor_lf"):
+                return I(lf)
+            if p.endswith("LookSet::contains_anchor_crlf"):
+                return I(ca)
+            if p.endswith("LookSet::contains_anchor_line"):
+                return I(lf | ca)
+            if p.endswith("LookSet::contains_anchor"):
+                return I(hay | lf | ca)
+            return None
+
+        def fields(owner, name):
+            if owner == CFG and name == "crlf":
+                return I(crlf)
+            if owner == CFG and name == "line_terminator":
+                return V("Some", None) if term else V("None", None)
+            return None
+        return combinator_model(facts, inner, field_model=fields, callees=helpers), fields
+    # which look set is consulted: the set of *all* look-arounds (Properties::look_set), not the prefix/suffix variants, which
+    # hold only what is guaranteed on every path (\\A inside one alternation branch would slip through)
+    scope = [h, nb] + [f_ for p_, f_ in facts.fns.items() if helpers(p_)]
+    scope += [g_ for f_ in list(scope) for g_ in facts.closures_of(f_.path)]
+    partial = [c for f_ in scope for c in f_.calls()
+               if c.path.split("::")[-1] in ("look_set_prefix", "look_set_suffix", "look_set_prefix_any", "look_set_suffix_any")]
+    consults = [c for f_ in scope for c in f_.calls() if c.path.endswith("LookSet::contains_anchor_haystack")]
+    wrong, kind_wrong = [], []
+    for hay, lf, ca, crlf in _it.product([0, 1], repeat=4):
+        m, fm = models(hay, lf, ca, crlf, 1)
+        sx = Sccp(h, call_model=m, field_model=fm).run([(0, {})])
+        vals = {x for v in sx.ret_values.values() for x in value_set(v)}
+        withheld = bool(vals) and all(v is not None and v[0] == "v" and v[1] == "None" for v in vals)
+        kept = bool(vals) and not any(v is not None and v[0] == "v" and v[1] == "None" for v in vals)
+        want = bool(hay or (lf if crlf else ca))
+        if (want and not withheld) or (not want and not kept):
+            row = "haystack=%d lf=%d crlf-anchors=%d config.crlf=%d ⇒ %s" % (hay, lf, ca, crlf, sorted(map(str, vals)))
+            (wrong if hay else kind_wrong).append(row) if want else (wrong if not (lf or ca) else kind_wrong).append(row)
+    if partial:
+        r.bad("anchors", "ConfiguredHIR::line_terminator looks for haystack anchors in a partial look set (prefix/suffix), not "
+              "in Properties::look_set(): \\A or \\z inside one alternation branch keeps the terminator promise and the fast "
+              "line path then evaluates it against the scan position", fn=h, loc=partial[0].loc, construct="anchors")
+    elif not consults:
+        r.bad("anchors", "the terminator promise no longer depends on haystack anchors", fn=h, construct="anchors")
+    elif wrong:
+        r.bad("anchors", "ConfiguredHIR::line_terminator promises a terminator despite haystack anchors (or withholds it without "
+              "any anchor): %s" % wrong[0], fn=h, construct="anchors")
     else:
+        r.ok("anchors", "\\A / \\z in the pattern ⇒ no terminator promise; otherwise the configured one", fn=h)
+    if kind_wrong:
+        r.bad("anchors|kind", "line_terminator keeps the terminator promise for line anchors that disagree with the configured terminator "
+              "(%s; %d of 16 rows): `(?R)\\s$` without --crlf or `a(?-R)$` with it match a line searched alone but not inside its "
+              "buffer, and the fast line path passes over it" % (kind_wrong[0], len(kind_wrong)), fn=h, construct="anchors")
+    else:
+        r.ok("anchors|kind", "withheld ⇔ haystack anchors ∨ (crlf ? LF anchors : CRLF anchors) (16 rows)", fn=h)
+    # non_matching_bytes(): which removals run
+    ebn = ExprBuilder(nb)
+    rem = [c for c in nb.calls() if c.path.endswith("ByteSet::remove")]
+    rem_term = [c for c in rem if mentions_call(ebn.operand(c.args[1]), "grep_matcher::LineTerminator::as_bytes", "grep_matcher::LineTerminator::as_byte")]
+    rem_all = [c for c in rem if c not in rem_term]
+    nm_wrong, ml_wrong = [], []
+    for hay, lf, ca, crlf in _it.product([0, 1], repeat=4):
+        for term in (1, 0):
+            m, fm = models(hay, lf, ca, crlf, term)
+            sx = Sccp(nb, call_model=m, field_model=fm).run([(0, {})])
+            t_run = any(c.bb in sx.exec_blocks for c in rem_term)
+            a_run = any(c.bb in sx.exec_blocks for c in rem_all)
+            if term:
+                want_t = bool(hay or (lf if crlf else ca))
+                if t_run != want_t:
+                    nm_wrong.append("haystack=%d lf=%d crlf-anchors=%d config.crlf=%d: terminator bytes %sremoved" % (hay, lf, ca, crlf, "" if t_run else "not "))
+                if a_run:
+                    ml_wrong.append("with a configured terminator every other byte is removed (haystack=%d lf=%d crlf-anchors=%d)" % (hay, lf, ca))
+            else:
+                if a_run != bool(lf or ca):
+                    ml_wrong.append("no terminator configured, lf=%d crlf-anchors=%d: other bytes %sremoved" % (lf, ca, "" if a_run else "not "))
+    # the loop over "every byte" spares \\n: some comparison with 10 decides the removal (in the function or in a closure of it)
+    spares = any(st["k"] == "assign" and st["rv"]["k"] == "bin" and st["rv"]["op"] in ("Ne", "Eq") and
+                 any((op_const(o) or {}).get("val") == 10 for o in (st["rv"]["a"], st["rv"]["b"]))
+                 for g_ in [nb] + facts.closures_of(nb.path) for _, _, st in g_.stmts())
+    if not rem_term or nm_wrong:
+        r.bad("anchors|non_matching", "with \\A / \\z in the pattern line_terminator() is withheld, but non_matching_bytes() still "
+              "lists the configured terminator (only \\n is special-cased): with --null-data the searcher takes the fast line path and "
+              "evaluates the anchors against the scan position, passing over matching records (%s)"
+              % (nm_wrong[0] if nm_wrong else "no removal of the terminator's bytes"), fn=nb, construct="anchors")
+    else:
+        r.ok("anchors|non_matching", "promise withheld ⇒ the configured terminator is taken out of non_matching_bytes() (32 rows)", fn=nb)
+    if not rem_all or ml_wrong or not spares:
         r.bad("anchors|multiline", "with no terminator configured (multi-line search) and line anchors in the pattern, "
               "non_matching_bytes() still advertises other bytes: under -U --null-data the searcher then cuts its input at NUL and "
               "searches buffer by buffer, and `^a` matches a record only if a buffer happens to begin there (--mmap and --no-mmap "
-              "disagree)", fn=nb, construct="anchors")
+              "disagree)%s" % (" [%s]" % ml_wrong[0] if ml_wrong else ""), fn=nb, construct="anchors")
+    else:
+        r.ok("anchors|multiline", "no terminator configured ∧ line anchors ⇒ only \\n may stay in non_matching_bytes()", fn=nb)
 
 def run(ctx):
     facts = ctx.facts
@@ -661,96 +723,7 @@ def gate_rule(ctx, r):
             r.bad("one_regex", "an infinite literal sequence still yields a candidate regex (%s)" % vals, fn=g, construct="one_regex")
     else:
         r.bad("one_regex", "one_regex builds a candidate regex from an empty/infinite sequence", fn=g, construct="one_regex")
-    h = facts.fn(R + "::config::ConfiguredHIR::line_terminator")
-    ebh = ExprBuilder(h)
-    an, an_exprs = anchor_tests(facts, h, ebh)
-    if an:
-        s1 = Sccp(h).run([(an[0][1][1], {})])
-        v1 = {x for v in s1.ret_values.values() for x in value_set(v)}
-        reads = [bb for bb, j, st in h.stmts() if st["k"] == "assign" and st["place"]["l"] == 0 and
-                 st["rv"]["k"] == "use" and op_place(st["rv"]["a"]) and (R + "::config::Config", "line_terminator") in fields_of_place(op_place(st["rv"]["a"]))]
-        # the set that is tested must be the set of *all* look-arounds of the pattern (Properties::look_set), not the
-        # prefix/suffix variants, which hold only what is guaranteed on every path (an alternation with \\A in one branch
-        # would slip through)
-        whole = all(any(x.k == "call" and x[1].endswith("Properties::look_set") for x in walk(e)) and
-                    not any(x.k == "call" and x[1].split("::")[-1] in ("look_set_prefix", "look_set_suffix", "look_set_prefix_any",
-                                                                       "look_set_suffix_any") for x in walk(e))
-                    for e in an_exprs)
-        if not whole:
-            r.bad("anchors", "ConfiguredHIR::line_terminator looks for haystack anchors in a partial look set (prefix/suffix), not "
-                  "in Properties::look_set(): \\A or \\z inside one alternation branch keeps the terminator promise and the fast "
-                  "line path then evaluates it against the scan position", fn=h, construct="anchors")
-        elif v1 == {V("None", None)} and reads and not guarded(h, reads, an, False):
-            r.ok("anchors", "\\A / \\z in the pattern ⇒ no terminator promise; otherwise the configured one", fn=h)
-        else:
-            r.bad("anchors", "ConfiguredHIR::line_terminator promises a terminator despite haystack anchors", fn=h, construct="anchors")
-    else:
-        r.bad("anchors", "the terminator promise no longer depends on haystack anchors", fn=h, construct="anchors")
-    # line anchors of the *other* kind (an inline (?R) without CRLF mode, (?-R) with it) see a \\r at the end of a line
-    # differently from the line splitter: the promise must be withheld for them too. 16-row table over
-    # (haystack anchors, LF anchors, CRLF anchors, config.crlf) of whichever function holds the test.
-    import itertools as _it
-    T = h
-    helper_true_is_agree = None
-    for bb, te, fe, e in cond_switches(h, lambda e: e.k == "call" and e[1].startswith(R + "::config::ConfiguredHIR::") and e[1] in facts.fns, ebh):
-        T = facts.fns[e[1]]
-    ebT = ExprBuilder(T)
-    crlf_sw = cond_switches(T, lambda e: any(x.k == "field" and x[3] == "crlf" and x[2] == R + "::config::Config" for x in walk(e)) and
-                            not any(x.k == "call" for x in walk(e)), ebT)
-    wrong = []
-    for hay, lf, ca, cfg in _it.product([0, 1], repeat=4):
-        def model(call, argv, hay=hay, lf=lf, ca=ca):
-            nm = call.path.rsplit("::", 1)[1]
-            if call.path.endswith("LookSet::contains_anchor_haystack"):
-                return I(hay)
-            if call.path.endswith("LookSet::contains_anchor_lf"):
-                return I(lf)
-            if call.path.endswith("LookSet::contains_anchor_crlf"):
-                return I(ca)
-            if call.path.endswith("LookSet::contains_anchor_line"):
-                return I(lf | ca)
-            if call.path.endswith("LookSet::contains_anchor"):
-                return I(hay | lf | ca)
-            return None
-        removed = {(x[2] if cfg else x[1]) for x in crlf_sw}
-        sx = Sccp(T, call_model=model, removed_edges=removed).run([(0, {})])
-        vals = {x for v in sx.ret_values.values() for x in value_set(v)}
-        want_withheld = bool(hay or (lf if cfg else ca))
-        if T is h:
-            withheld = vals == {V("None", None)}
-            kept = bool(vals) and V("None", None) not in vals      # the configured value itself is not a constant
-        else:
-            # the helper answers a bool; its polarity was settled by the haystack test above
-            s_h = Sccp(T, call_model=lambda c, a: I(1) if c.path.endswith("LookSet::contains_anchor_haystack") else None).run([(0, {})])
-            hv = {x for v in s_h.ret_values.values() for x in value_set(v)}
-            disagree_val = 0 if hv == {I(0)} else 1
-            withheld = vals == {I(disagree_val)}
-            kept = vals == {I(1 - disagree_val)}
-        if (want_withheld and not withheld) or (not want_withheld and not kept):
-            wrong.append("haystack=%d lf=%d crlf-anchors=%d config.crlf=%d ⇒ %s" % (hay, lf, ca, cfg, sorted(map(str, vals))))
-    if wrong:
-        r.bad("anchors|kind", "%s keeps the terminator promise for line anchors that disagree with the configured terminator "
-              "(%s; %d of 16 rows): `(?R)\\s$` without --crlf or `a(?-R)$` with it match a line searched alone but not inside its "
-              "buffer, and the fast line path passes over it" % (T.path.split("::")[-1], wrong[0], len(wrong)), fn=T, construct="anchors")
-    else:
-        r.ok("anchors|kind", "withheld ⇔ haystack anchors ∨ (crlf ? LF anchors : CRLF anchors) (16 rows)", fn=T)
-    multiline_anchor_rule(ctx, r)
-    # the sibling accessor: when the terminator promise is withheld, the terminator must not come back through
-    # non_matching_bytes() — the searcher admits its fast line path on either of the two answers
-    nb = facts.fn(R + "::config::ConfiguredHIR::non_matching_bytes")
-    ebn = ExprBuilder(nb)
-    an2, an2_exprs = anchor_tests(facts, nb, ebn)
-    if not all(any(x.k == "call" and x[1].endswith("Properties::look_set") for x in walk(e)) for e in an2_exprs):
-        an2 = []
-    rem = [c for c in nb.calls() if c.path.endswith("ByteSet::remove") and
-           mentions_call(ebn.operand(c.args[1]), "grep_matcher::LineTerminator::as_bytes", "grep_matcher::LineTerminator::as_byte")]
-    if an2 and rem and not guarded(nb, [c.bb for c in rem], an2, True) and \
-            all(c.bb in C.reach(nb, [an2[0][1][1]]) for c in rem):
-        r.ok("anchors|non_matching", "haystack anchors ⇒ the configured terminator is taken out of non_matching_bytes()", fn=nb)
-    else:
-        r.bad("anchors|non_matching", "with \\A / \\z in the pattern line_terminator() is withheld, but non_matching_bytes() still "
-              "lists the configured terminator (only \\n is special-cased): with --null-data the searcher takes the fast line path and "
-              "evaluates the anchors against the scan position, passing over matching records", fn=nb, construct="anchors")
+    anchors_tables(ctx, r)
     k = facts.fn("<%s::matcher::RegexMatcher as grep_matcher::Matcher>::find_candidate_line" % R)
     ebk = ExprBuilder(k)
     LMK = "grep_matcher::LineMatchKind"
